@@ -47,10 +47,10 @@ func init() {
 	register(&Check{
 		ID:    "C17",
 		Level: "exploration",
-		Rule: "layer level: for every decodable layer, ordered pairs (earlier, later) of valid encodings drawn so that every combination of optional-tail form / branch occurs; the later input is decoded into the used layer and into a fresh one and every exported field (including BaseLayer contents/payload, by value; nil and empty slices equal) must match. " +
+		Rule: "layer level: for every decodable layer, ordered pairs (earlier, later) of valid encodings drawn so that every combination of optional-tail form / branch occurs, plus later inputs that are truncations (every length) and byte mutations of valid encodings; the later input is decoded into the used layer and into a fresh one and every exported field (including BaseLayer contents/payload, by value; nil and empty slices equal) must match. " +
 			"connection level: every ordered pair of 12 commands, the first answered normally / with an error code / with a truncated body / with noise-then-ok, the second compared with the same command on a fresh connection to a BMC in the same state, session-less and in-session, with fresh and with reused command values. " +
 			"non-trivial = pair with differing branch or length; distinct = distinct (layer, branch A, branch B) / (first, second, outcome, mode)",
-		Assumptions: []string{"inputs that a decoder accepts although they are not valid encodings (e.g. a 13-byte Get Device ID body) are run as observations only and never raise a violation"},
+		Assumptions: []string{"later inputs include every truncation and small mutations of valid encodings; whatever the decoder accepts must decode the same into a used and a fresh layer"},
 		Gen: func(tier string, seed int64) []ev.Case {
 			n := 4000
 			if tier == "thorough" {
@@ -65,6 +65,9 @@ func init() {
 			reps := 1
 			if tier == "thorough" {
 				reps = 10
+			}
+			for k := 0; k < reps*4; k++ {
+				cs = append(cs, ev.MkCase("batch", c17Batch{What: "discovery", Count: 60, Seed: seed*17 + int64(k)}))
 			}
 			for k := 0; k < reps; k++ {
 				for f := 0; f < len(c17Cmds); f++ {
@@ -88,6 +91,10 @@ func c17Exec(run *ev.Run, c ev.Case) {
 		var o c17Conn
 		c.Decode(&o)
 		c17ConnPair(run, o)
+	case "disc":
+		var o c17Disc
+		c.Decode(&o)
+		c17Discovery(run, o)
 	case "batch":
 		var b c17Batch
 		c.Decode(&b)
@@ -100,16 +107,31 @@ func c17Exec(run *ev.Run, c ev.Case) {
 				eb, _, brb := sp.Gen(r)
 				c17Pairwise(run, sp, ea, eb, bra, brb, true)
 				if i%8 == 0 {
-					// observation only: later input is a truncation the decoder may still accept
-					if len(eb) > sp.MinLen {
-						cut := sp.MinLen + r.Intn(len(eb)-sp.MinLen)
+					// later inputs that are not valid encodings but that the decoder may
+					// still accept: every truncation, and small mutations
+					for cut := sp.MinLen; cut < len(eb); cut++ {
 						t := append([]byte(nil), eb[:cut]...)
 						if sp.FixUp != nil {
 							t = sp.FixUp(t)
 						}
-						c17Pairwise(run, sp, ea, t, bra, "truncated", false)
+						c17Pairwise(run, sp, ea, t, bra, fmt.Sprintf("truncated-%d", len(eb)-cut), true)
+					}
+					if len(eb) > 0 {
+						m := append([]byte(nil), eb...)
+						for k := 1 + r.Intn(3); k > 0; k-- {
+							m[r.Intn(len(m))] = byte(r.Intn(256))
+						}
+						if sp.FixUp != nil {
+							m = sp.FixUp(m)
+						}
+						c17Pairwise(run, sp, ea, m, bra, "mutated", true)
 					}
 				}
+			}
+		case "discovery":
+			r := rng(b.Seed, "c17disc")
+			for i := 0; i < b.Count; i++ {
+				c17Discovery(run, c17Disc{Seed: r.Int63(), FailAt: r.Intn(6), FailKind: []string{"cc", "empty", "cancel", "lost-forever"}[r.Intn(4)], Change: r.Intn(3) > 0, NewSession: r.Intn(3) == 0})
 			}
 		case "conn":
 			for second := 0; second < len(c17Cmds); second++ {
@@ -340,4 +362,130 @@ func c17SpecFor(kind string) *layerSpec {
 		return specByName(n)
 	}
 	return nil
+}
+
+// c17Disc is one cipher-suite discovery history: a first retrieval that fails
+// at its FailAt-th request (0: it succeeds), then a second one on the same
+// connection, compared with the same retrieval on a fresh connection.
+type c17Disc struct {
+	Seed       int64
+	FailAt     int
+	FailKind   string // cc | empty | cancel | lost-forever
+	Change     bool   // the BMC advertises different records the second time
+	NewSession bool   // the second retrieval is the discovery inside NewV2Session
+}
+
+func c17Discovery(run *ev.Run, o c17Disc) {
+	run.Eval(1)
+	cs := ev.MkCase("disc", o)
+	r := rng(o.Seed, "c17disc1")
+	genRecs := func() []refbmc.SuiteRecord {
+		var recs []refbmc.SuiteRecord
+		for i, n := 0, 2+r.Intn(9); i < n; i++ {
+			rec := refbmc.SuiteRecord{ID: byte(r.Intn(256)), Auth: byte(r.Intn(4))}
+			if r.Intn(4) == 0 {
+				rec.OEM, rec.IANA = true, uint32(r.Intn(1<<24))
+			}
+			for k := r.Intn(3); k > 0; k-- {
+				rec.Integs = append(rec.Integs, byte(r.Intn(5)))
+			}
+			for k := r.Intn(3); k > 0; k-- {
+				rec.Confs = append(rec.Confs, byte(r.Intn(4)))
+			}
+			recs = append(recs, rec)
+		}
+		// always advertise suite 3 so that the session variant can go through
+		return append(recs, refbmc.SuiteRecord{ID: 3, Auth: 1, Integs: []byte{1}, Confs: []byte{1}})
+	}
+	dataA, dataB := refbmc.EncodeSuiteRecords(genRecs()), refbmc.EncodeSuiteRecords(genRecs())
+	if !o.Change {
+		dataB = dataA
+	}
+	second := func(e *Env, cfg refbmc.Config) string {
+		ctx, cancel := e.LimitCtx(80)
+		defer cancel()
+		if o.NewSession {
+			var err error
+			var sess *bmc.V2Session
+			pv, st := safe(func() {
+				sess, err = e.ST.NewV2Session(ctx, &bmc.V2SessionOpts{SessionOpts: bmc.SessionOpts{Username: cfg.Username, Password: cfg.Password, MaxPrivilegeLevel: ipmi.PrivilegeLevelAdministrator},
+					CipherSuites: []ipmi.CipherSuite{{AuthenticationAlgorithm: 3, IntegrityAlgorithm: 4, ConfidentialityAlgorithm: 1}, ipmi.CipherSuite3}})
+			})
+			if pv != nil {
+				return fmt.Sprintf("panic %v at %s", pv, panicSite(st))
+			}
+			if err != nil {
+				return "err"
+			}
+			return fmt.Sprintf("session %v/%v/%v", sess.AuthenticationAlgorithm, sess.IntegrityAlgorithm, sess.ConfidentialityAlgorithm)
+		}
+		var got []ipmi.CipherSuiteRecord
+		var err error
+		pv, st := safe(func() { got, err = bmc.RetrieveSupportedCipherSuites(ctx, e.ST) })
+		if pv != nil {
+			return fmt.Sprintf("panic %v at %s", pv, panicSite(st))
+		}
+		return fmt.Sprintf("err=%v %v", err != nil, got)
+	}
+	mk := func(data []byte) (*Env, *refbmc.CipherSuiteServer, refbmc.Config) {
+		cfg := defaultCfg(rng(o.Seed, "c17disccfg"))
+		cfg.Suites = stdSuites()
+		e := NewEnv(cfg, memtr.Window)
+		srv := &refbmc.CipherSuiteServer{Channel: 1, Data: data}
+		e.BMC.Handler = refbmc.Chain(srv.Handle)
+		return e, srv, cfg
+	}
+	// used connection
+	e, srv, cfg := mk(dataA)
+	n54 := 0
+	var cancelFirst context.CancelFunc
+	failing := true
+	e.BMC.Handler = refbmc.Chain(func(evn *refbmc.Event) (byte, []byte, bool) {
+		if !failing || evn.NetFn != 6 || evn.Cmd != 0x54 {
+			return 0, nil, false
+		}
+		n54++
+		if o.FailAt > 0 && n54 >= o.FailAt {
+			switch o.FailKind {
+			case "cc":
+				return 0xc1, nil, true
+			case "empty":
+				return 0, nil, true
+			case "cancel":
+				cancelFirst()
+			}
+		}
+		return 0, nil, false
+	}, srv.Handle)
+	if o.FailKind == "lost-forever" && o.FailAt > 0 {
+		e.Filter = func(n int, req, reply []byte) ([]byte, error) {
+			if failing && n54 >= o.FailAt {
+				if n54 > o.FailAt+2 {
+					cancelFirst()
+				}
+				return nil, nil
+			}
+			return reply, nil
+		}
+	}
+	ctx1, c1 := e.LimitCtx(80)
+	cancelFirst = c1
+	var firstErr error
+	pv, st := safe(func() { _, firstErr = bmc.RetrieveSupportedCipherSuites(ctx1, e.ST) })
+	c1()
+	if pv != nil {
+		run.Violation("C17:discovery:panic:"+panicSite(st), fmt.Sprintf("first retrieval panicked: %v", pv), cs, nil)
+		return
+	}
+	failing = false
+	e.Filter = nil
+	srv.Data = dataB
+	used := second(e, cfg)
+	ef, _, cfgf := mk(dataB)
+	fresh := second(ef, cfgf)
+	run.Event("discovery-histories", 1)
+	run.Nontrivial(fmt.Sprintf("disc|%d|%s|%v|%v|%v", o.FailAt, o.FailKind, o.Change, o.NewSession, firstErr != nil))
+	if used != fresh {
+		run.Violation("C17:discovery:result-depends-on-history", fmt.Sprintf("cipher suite discovery after an earlier retrieval (failure %s at request %d: err=%v; records changed: %v; through NewV2Session: %v): used connection %q, fresh connection %q", o.FailKind, o.FailAt, firstErr, o.Change, o.NewSession, used, fresh), cs, nil)
+	}
 }
